@@ -29,6 +29,26 @@ THEOREMS = [
     'CpProofs.C12.deleteTable_covers_controls',
     'CpProofs.C12.C12_headermap_clean',
     'CpProofs.C12.C12_headermap_bytes_clean',
+    'CpProofs.C12.C12_output_clean',
+    'CpProofs.C12.b64decN_b64encN',
+    'CpProofs.C12.b64dec_b64enc',
+    'CpProofs.C12.b64enc_clean',
+    'CpProofs.C12.C12_rfc2047_roundtrip',
+    'CpProofs.C12.C12_status_cookie_clean',
+    'CpProofs.C12.C12_cookie_no_injection',
+    'CpProofs.C12.C12_status_cookie_clean_old_false',
+    'CpProofs.C12.cookieLinesOld_injects',
+    'CpProofs.C12.C12_status_old_partial',
+    'CpProofs.C12.C12_sanitizeHost_clean',
+    'CpProofs.C12.htmlEscape_no_markup',
+    'CpProofs.C12.htmlUnescape_htmlEscape',
+    'CpProofs.C12.C12_error_page_escaped',
+    'CpProofs.C12.errorPage_isSome',
+    'CpProofs.C12.quoteattr_delimited',
+    'CpProofs.C12.C12_redirect_page_escaped',
+    'CpProofs.C12.C12_log_single_line_escaped',
+    'CpProofs.C12.C12_log_quote_guarded',
+    'CpProofs.C12.C12_log_quote_strong_false',
 ]
 LEVEL = 'proof'
 TECHNIQUE = ('Lean 4 proof over a byte-level model of header encoding, finalize, error/redirect page rendering and '
